@@ -238,6 +238,13 @@ func (a *archiveReconciler) garbageCollectRevisions(
 			break
 		}
 
+		if !previousObjectSet.IsArchived() {
+			// Only archived revisions are history. A revision that is not archived may still be serving:
+			// deleting it would tear down objects the incoming revision has not taken over yet.
+			// Revisions are pruned strictly oldest first, so stop here.
+			break
+		}
+
 		if err := a.client.Delete(ctx, previousObjectSet.ClientObject()); err != nil && !errors.IsNotFound(err) {
 			return fmt.Errorf("failed to delete objectset: %w", err)
 		}
